@@ -152,6 +152,7 @@ class Project:
         self.funcs: Dict[str, FuncInfo] = {}
         self.classes: Dict[str, ClassInfo] = {}
         self.func_of_node: Dict[int, FuncInfo] = {}
+        self.normalised: Dict[str, Dict[str, int]] = {}
         self.renamed: Dict[str, Dict[str, Dict[str, str]]] = {}     # locals alpha-converted back to the reference vocabulary (sa/canon.py)
         self._load()
 
@@ -196,6 +197,11 @@ class Project:
                 done = canon.canonicalise(tree, rel)
                 if done:
                     self.renamed[rel] = done
+            if not os.environ.get('VERIF_NO_NORMALISE'):
+                from . import normalize
+                st = normalize.normalise(tree)
+                if st:
+                    self.normalised[rel] = st
             set_parents(tree)
             modpath = rel[len('src/'):-3].replace('/', '.')
             is_pkg = False
@@ -211,6 +217,51 @@ class Project:
             self._index_module(mi)
         for ci in self.classes.values():
             ci.bases = [self._resolve_base(ci, b) for b in ci.node.bases]
+        if not os.environ.get('VERIF_NO_NORMALISE'):
+            self._positional_calls()
+
+    def _positional_calls(self) -> None:
+        """N6 of the normal form (see sa/normalize.py): at a call of a project function, a leading run of parameters passed by keyword
+        is moved into positional slots (`f(a, y=b)` -> `f(a, b)` when y is f's second parameter).  Python binds both the same way; the
+        rules then find an argument either at its position or, for the remaining ones, by keyword."""
+        n = 0
+        for mi in self.modules.values():
+            for c in ast.walk(mi.tree):
+                if not isinstance(c, ast.Call) or not c.keywords:
+                    continue
+                if any(isinstance(a, ast.Starred) for a in c.args) or any(k.arg is None for k in c.keywords):
+                    continue
+                d = dotted(c.func)
+                if not d:
+                    continue
+                callee = None
+                drop_self = False
+                if d.startswith('self.') and d.count('.') == 1:
+                    f = self.func_of_node.get(id(next((a for a in ancestors(c) if isinstance(a, (ast.FunctionDef, ast.AsyncFunctionDef))), None)))
+                    if f is not None and f.cls is not None:
+                        callee = self.find_method(f.cls, d[5:])
+                        drop_self = True
+                else:
+                    r = self.resolve_name(mi, d)
+                    if r and r[0] == 'func':
+                        callee = r[1]
+                        drop_self = callee.cls is not None and bool(callee.params) and callee.params[0] in ('self', 'cls')
+                    elif r and r[0] == 'class':
+                        callee = self.find_method(r[1], '__init__')
+                        drop_self = True
+                if callee is None or callee.node.args.vararg is not None or callee.node.args.posonlyargs:
+                    continue
+                params = [a.arg for a in callee.node.args.args]
+                if drop_self and params and params[0] in ('self', 'cls'):
+                    params = params[1:]
+                kws = {k.arg: k for k in c.keywords}
+                while len(c.args) < len(params) and params[len(c.args)] in kws:
+                    k = kws.pop(params[len(c.args)])
+                    c.args.append(k.value)
+                    c.keywords.remove(k)
+                    n += 1
+        if n:
+            self.normalised.setdefault('*', {})['N6'] = n
 
     def _resolve_import_from(self, mi: ModuleInfo, node: ast.ImportFrom) -> str:
         if node.level:
